@@ -1,0 +1,20 @@
+// Copyright Amazon.com, Inc. or its affiliates. All Rights Reserved.
+// SPDX-License-Identifier: Apache-2.0
+
+//! Verification hooks (compiled only with `--cfg aws_s2n_quic_verif`).
+//!
+//! Thin drivers that let an external verification harness exercise otherwise private
+//! components (`ack`, `sync`, `space`, `path`, `stream`, `connection` internals) with plain
+//! integer operation sequences. No production code path calls into this module.
+#![allow(dead_code, unused_imports, clippy::all)]
+
+pub mod amplification;
+pub mod ack_manager;
+pub mod cids;
+pub mod close_sender;
+pub mod data_sender;
+pub mod flow;
+pub mod recovery;
+pub mod streams;
+pub mod sync;
+pub mod misc;
